@@ -1182,14 +1182,37 @@ impl<'a> CloGen<'a> {
                 }
             }
             12 if self.on(flow::TUPLE) => {
-                self.feat("flow:tuple");
                 let f = self.some_f1(sc, nest, out);
                 let e = self.int_expr(sc, 1);
-                let (h, m) = (self.fresh("h"), self.fresh("n"));
-                write!(out, "let ({}, {}) = ({}, {}); ", h, m, f, e).unwrap();
-                sc.push(CV { name: h.clone(), ty: CT::F(1) });
-                sc.push(CV { name: m.clone(), ty: CT::I });
-                self.print(&format!("{}({})", h, m), out);
+                match self.rng.below(3) {
+                    0 if nest > 0 => {
+                        // a tuple holding a closure is captured by another closure and taken apart inside it
+                        self.feat("flow:tuple-captured-by-closure");
+                        let (t, g, a) = (self.fresh("t"), self.fresh("f"), self.fresh("a"));
+                        let (h, m) = (self.fresh("h"), self.fresh("n"));
+                        write!(out, "let {t} = ({f}, {e}); let {g} = |{a}: int32| {{ let ({h}, {m}) = {t}; {h}({a}) + {m} }}; ", t = t, f = f, e = e, g = g, a = a, h = h, m = m).unwrap();
+                        sc.push(CV { name: g.clone(), ty: CT::F(1) });
+                        let c = self.call_of(&g, 1, sc);
+                        self.print(&c, out);
+                    }
+                    1 if nest > 0 => {
+                        // a closure shadows the closure it captures (same source name)
+                        self.feat("closure-shadows-captured-closure");
+                        let a = self.fresh("a");
+                        let k = self.int_expr(sc, 1);
+                        write!(out, "let {f} = |{a}: int32| {f}({a}) + {k}; ", f = f, a = a, k = k).unwrap();
+                        let c = self.call_of(&f, 1, sc);
+                        self.print(&c, out);
+                    }
+                    _ => {
+                        self.feat("flow:tuple");
+                        let (h, m) = (self.fresh("h"), self.fresh("n"));
+                        write!(out, "let ({}, {}) = ({}, {}); ", h, m, f, e).unwrap();
+                        sc.push(CV { name: h.clone(), ty: CT::F(1) });
+                        sc.push(CV { name: m.clone(), ty: CT::I });
+                        self.print(&format!("{}({})", h, m), out);
+                    }
+                }
             }
             13 if self.on(flow::STRUCT_OWN) && top => {
                 self.feat("flow:struct-field");
@@ -1201,6 +1224,30 @@ impl<'a> CloGen<'a> {
                 write!(out, "let {} = {} {{ f: {}, k: {} }}; let {} = {}.f; ", b, s, f, e, h, b).unwrap();
                 sc.push(CV { name: h.clone(), ty: CT::F(1) });
                 self.print(&format!("{}({}.k)", h, b), out);
+                if nest > 0 && self.rng.chance(1, 2) {
+                    // the struct holding the closure is captured by another closure
+                    self.feat("flow:struct-captured-by-closure");
+                    let (g, a, hh) = (self.fresh("f"), self.fresh("a"), self.fresh("h"));
+                    write!(out, "let {g} = |{a}: int32| {{ let {hh} = {b}.f; {hh}({a} + {b}.k) }}; ", g = g, a = a, hh = hh, b = b).unwrap();
+                    sc.push(CV { name: g.clone(), ty: CT::F(1) });
+                    let c = self.call_of(&g, 1, sc);
+                    self.print(&c, out);
+                }
+            }
+            14 if self.on(flow::TOPFN) && top && self.rng.chance(1, 3) => {
+                // closures created inside a trait method and an inherent method (context names with `#`)
+                self.feat("closure-in-method");
+                let tr = self.fresh("Scale");
+                let st = self.fresh("Acc");
+                let c = self.rng.below(5);
+                writeln!(self.decls, "trait {tr} {{ fn scale(Self, int32) -> int32; }}\nimpl {tr} for int32 {{ fn scale(self: int32, k: int32) -> int32 {{ let pr = (|x: int32| x * k + self + {c}, k); let (f, n) = pr; f(self) + f(n) }} }}\nstruct {st} {{ v: int32 }}\nimpl {st} {{ fn bump(self: {st}, d: int32) -> int32 {{ let g = |y: int32| {{ let h = |z: int32| z + self.v + y; h(d) }}; g(d) }} }}", tr = tr, st = st, c = c).unwrap();
+                let e = self.int_expr(sc, 1);
+                let e2 = self.int_expr(sc, 1);
+                self.print(&format!("{}::scale({}, {})", tr, e, e2), out);
+                let e3 = self.int_expr(sc, 1);
+                let a = self.fresh("acc");
+                write!(out, "let {} = {} {{ v: {} }}; ", a, st, e3).unwrap();
+                self.print(&format!("{}.bump({})", a, e), out);
             }
             14 if self.on(flow::TOPFN) => {
                 self.feat("flow:top-level-fn-value");
